@@ -34,7 +34,8 @@ Inductive op :=
   | OEvents (l : lvl)
   | OClearEv (l : lvl)
   | OReg
-  | OFault (f : fault) (n : N).
+  | OFault (f : fault) (n : N)
+  | OConv (k : kind) (r : href).
 
 Record rstate := RS {
   worlds : list (option world);
@@ -187,6 +188,23 @@ Definition probe_storage_arch (cfg : config) (k : kind) (s : storage) (h : handl
 
 Definition npaths_world (typed : bool) : nat := if typed then 6 else 4.
 
+(* ---- conversions between handle types (entity.rs and the Select* enums of generate/world.rs) *)
+Definition conv_obs (archs : list darch) (k : kind) (h : handle) : list N :=
+  let idof := match k with KEnt => key_arch_id (fst h) | KDir => dkey_arch_id (fst h) end in
+  if (match k with KEnt => negb (raw_ok (snd h)) | KDir => false end) then [5%N]
+  else
+    [1%N; fst h; snd h; idof]
+    ++ concat ((fun a => if id_ok k (fst h) (da_id a) then [1%N; fst h; snd h; da_id a] else [0%N]) <$> archs)
+    ++ (match find_arch archs idof with Some a => [N.of_nat a; fst h; snd h] | None => [255%N] end)
+    ++ (match k with
+        | KEnt =>
+            (match find_arch archs idof, find_arch archs idof ≫= (fun a => archs !! a) with
+             | Some a, Some ad => [N.of_nat a; da_id ad] | _, _ => [255%N] end)
+            ++ (match find_arch archs idof with Some a => [N.of_nat a] | None => [255%N] end)
+            ++ [hash_word (fst h) (snd h); 1%N]
+        | KDir => [dhash_word (fst h) (snd h)]
+        end).
+
 (* ---- the step function *)
 Definition ret (st : rstate) (o : list N) : stepres := Some (st, o).
 
@@ -219,6 +237,7 @@ Definition step (cfg : config) (d : wdecl) (qs : list (list qparam)) (st : rstat
       | None => ret st [0%N]
       end
   | OReg => ret st (registry d st)
+  | OConv k r => match get_href st k r with Some h => ret st (conv_obs archs k h) | None => ret st [8%N] end
   | OFault f n =>
       ret (match f with
            | FClone => RS (worlds st) (cur st) (issued st) (directs st) (leaked st) (zleaked st) n (drop_in st)
